@@ -22,7 +22,10 @@ MANIFEST = dict(
     note="binary_byte_offset = first occurrence is now proved (LineBuffer bookkeeping across rolls, reader events and "
          "finish; slices: first occurrence if inside the sniffed prefix, else an occurrence in a reported line). "
          "Core's line selection is abstract in the theorems (a plan of sink calls); the correspondence instantiates "
-         "it with the context-free line search; context options, multi-line, JSON, -o/-r are covered by the CLI "
+         "it with the context-free line search (kind 1401) and, for -A/-B/-C, --passthru, --stop-on-nonmatch, -v, with "
+         "the plan computed by the C03 Core model (kind 1404: slice and reader strategies, the sniffed prefix of a "
+         "slice bounded to a few bytes by the hook verif_sniff_capacity, so that matched AND context lines meet the "
+         "per-line examination); multi-line with context, JSON, -o/-r are covered by the CLI "
          "oracle (NUL-freeness, notice conditions) only. The literal reading 'warning if lines were already "
          "printed' is refuted for --passthru context-only output (known finding). Rendering of a line is a "
          "Section variable assumed not to invent the byte.",
@@ -501,11 +504,13 @@ def ctx_straddle_files(cap):
     some = b"".join((b"x a" if i % 8 == 0 else b"bb ") + pad(250) + b"\n" for i in range(cap // 254 + 3))
     none = b"".join(b"bb " + pad(250) + b"\n" for i in range(cap // 254 + 3))
     assert len(some) > cap + 500 and len(none) > cap + 500
-    res = {"t/c0": some + b"x a match\nbb \x00 binary\nbb tail\nx a last\n",
-           "t/c1": none + b"x a match\nbb \x00 binary\nbb tail\nx a last\n",
-           "t/c2": none + b"bb \x00 binary\nx a match\nbb tail\n",
-           "t/c3": none + b"x a match\nbb \x00 binary",
+    nul_line = b"bb \x00 xx\n"                      # holds no needle: reported only as context
+    res = {"t/c0": some + b"x a one\n" + nul_line + b"bb end\nx a two\n",
+           "t/c1": none + b"x a one\n" + nul_line + b"bb end\nx a two\n",
+           "t/c2": none + nul_line + b"x a one\nbb end\n",
+           "t/c3": none + b"x a one\n" + nul_line[:-1],
            "e/x1": b"ab\nb\n"}
+    assert not any(n in nul_line for n in NEEDLES)
     for content in res.values():
         assert not (0 <= content.find(b"\x00") < cap)
     return res
@@ -793,7 +798,9 @@ def run(ctx):
     ctx.cov["rule"] = ("library cases: stream of short lines over {a,b,x} with 0-3 binary bytes at chosen places, "
                        "mode none/quit/convert, reader (capacity 1-64, eager or limited growth, read history with "
                        "short/zero/failing reads) or slice strategy, needles, invert, passthru, stopping sink, "
-                       "max_matches; non-trivial = detection enabled and the byte occurs in the stream")
+                       "max_matches; non-trivial = detection enabled and the byte occurs in the stream; "
+                       "context cases (kind 1404): 1-9 short lines, 0-2 binary bytes, before/after 0-2, passthru, "
+                       "stop_on_nonmatch, invert, sniffed prefix 0-8 bytes or the default, plan from the Core model")
 
 
 def replay(ctx, data):
